@@ -80,6 +80,12 @@ async def explore(tier, seed, m, v):
             for coord, spec in list(renv["resolvers"].items()):
                 if spec["k"] in ("const", "raise") and rng.random() < 0.25 and coord.split(".")[1] not in sg.echo:
                     renv["resolvers"][coord] = {"k": "raise", "v": {"x": False, "m": "foreign boom", "e": [], "foreign": 1}}
+        # some raising resolvers raise ONE shared exception instance (an application-level constant) on every call
+        # (only on the schemas whose engine has the counting coercer: the path / locations such an instance reports are those of
+        # its FIRST report - the recorded KF-C02-1 mechanism, across requests - and are not what this scenario is about)
+        for coord, spec in list(renv["resolvers"].items()):
+            if si % 3 == 1 and spec["k"] == "raise" and rng.random() < 0.4: renv["resolvers"][coord] = {"k": "raiseShared", "v": spec["v"]}
+        shared_raise = any(sp["k"] == "raiseShared" for sp in renv["resolvers"].values())
         # engine with a counting / rewriting error coercer on half of the schemas
         coerced_log = []
         custom = si % 3 == 1
@@ -126,7 +132,7 @@ async def explore(tier, seed, m, v):
             stats["evaluations"] += 1
             stats["kinds"][kind] = stats["kinds"].get(kind, 0) + 1
             try:
-                b.calls.clear()
+                b.calls.clear(); er.CustomScalar.input_calls = 0
                 with er.guard(query=repr(q), operation_name=opn, variables=repr(variables)[:300], sdl=print_sdl(b.model)):
                     resp = await b.engine.execute(q, operation_name=opn, variables=variables)
             except BaseException as ex:
@@ -159,11 +165,16 @@ async def explore(tier, seed, m, v):
                 if resp.get("data") is not None or calls: pr.append("several anonymous operations (ambiguous) but data non-null or a resolver ran")
             elif kind.startswith("opname") and orc.operation_of(doc, opn) is None and not (opn in ("", None) and len([d for d in doc["definitions"] if d["kind"] == "OperationDefinition"]) == 1):
                 if resp.get("data") is not None or calls: pr.append("operation selection failed but data non-null or a resolver ran")
+                # nothing of an operation that was NOT selected may run or be reported: no input coercion of its variables
+                # (user code for custom scalars), one error - the selection failure
+                if er.CustomScalar.input_calls: pr.append("operation selection failed but a custom scalar's coerce_input ran (variables of an operation that was never selected)")
+                if isinstance(resp.get("errors"), list) and len(resp["errors"]) > 1 and not any((e.get("extensions") or {}).get("rule") for e in resp["errors"] if isinstance(e, dict)):
+                    pr.append(f"operation selection failed and {len(resp['errors'])} errors are reported: the extra ones belong to an operation that was never selected")
             h = hashlib.sha256(repr((q, opn, repr(variables))).encode()).hexdigest()[:16]
             if "errors" in resp: stats["nontrivial"].add(h)
             if pr:
                 stats["problems"].append({"query": q if isinstance(q, str) else repr(q), "operation_name": opn, "variables": repr(variables)[:300], "response": json.loads(json.dumps(resp, default=str))if True else None, "what": pr[:5], "sdl": print_sdl(b.model)})
-            elif kind in ("valid", "opname", "valid+bytes", "opname+bytes") and m is not None and isinstance(variables, (dict, type(None))) and not custom and not stamping and not foreign:
+            elif kind in ("valid", "opname", "valid+bytes", "opname+bytes") and m is not None and isinstance(variables, (dict, type(None))) and not custom and not stamping and not foreign and not shared_raise:
                 real = {"data": enc(resp.get("data")), "errors": er.canon_errors(resp.get("errors")), "calls": calls}
                 req = er.model_request(b, q, opn, variables, None, renv)
                 mod = m.ask(req)
